@@ -416,3 +416,117 @@ class InferRootFromConfig:
         # C09: the project root does not depend on how --config was spelled: it is an ABSOLUTE directory, so that
         # file_path.relative_to(root) works for absolutely spelled targets
         return path_is_abs(result)
+
+
+# =================================================================== 6. project-root detection (src/utils/project_root.py)
+PRJ = "src/utils/project_root.py::"
+from pyvc.api import Opaque  # noqa: E402
+from pyvc.ex_call import EXTERNALS as _EXT  # noqa: E402
+from pyvc.ty import VOpaque as _VOpaque, VList as _VList  # noqa: E402
+from contracts.c09_paths import fs_is_file, fs_is_dir, path_div  # noqa: E402
+import z3 as _z3  # noqa: E402
+
+CriterionT = Opaque("RootCriterion")
+crit_dir = uf("root_criterion_has_dir", [Str], CriterionT)
+crit_file = uf("root_criterion_has_file", [Str], CriterionT)
+path_parents = uf("path_parents", [PathT], SeqOf(PathT), concrete=lambda p: list(__import__("pathlib").PurePosixPath(p).parents))
+path_cwd = uf("path_cwd", [], PathT)
+pyproj_find = uf("pyprojroot_find_root", [CriterionT, PathT], Opt(PathT))
+
+
+def _x_parents(ex, args, kwargs, lineno):
+    ex.ufs_used.add("path_parents")
+    return _VList(PathT, seq=_z3.Function("uf.path_parents", PathT.sort(), _z3.SeqSort(PathT.sort()))(args[0].t))
+
+
+def _x_has_dir(ex, args, kwargs, lineno):
+    return ex.call_uf("root_criterion_has_dir", list(args))
+
+
+def _x_has_file(ex, args, kwargs, lineno):
+    return ex.call_uf("root_criterion_has_file", list(args))
+
+
+def _x_cwd(ex, args, kwargs, lineno):
+    ex.ufs_used.add("path_cwd")
+    return _VOpaque(_z3.Const("uf.path_cwd", PathT.sort()), PathT)
+
+
+_EXT.setdefault("Path.@parents", _x_parents)
+_EXT.setdefault("pyprojroot.has_dir", _x_has_dir)
+_EXT.setdefault("pyprojroot.has_file", _x_has_file)
+_EXT.setdefault("pathlib.Path.cwd", _x_cwd)
+
+
+def marked(p):
+    """A directory carries a project marker: .git/ directory, .thailint.yaml or pyproject.toml file."""
+    return fs_is_dir(path_div(p, ".git")) or fs_is_file(path_div(p, ".thailint.yaml")) or fs_is_file(path_div(p, "pyproject.toml"))
+
+
+def first_marked(chain: SeqOf(PathT), default: PathT) -> PathT:
+    """The NEAREST directory of the chain (the start directory first, then its ancestors outwards) that carries a marker."""
+    if len(chain) == 0:
+        return default
+    if marked(chain[0]):
+        return chain[0]
+    return first_marked(chain[1:], default)
+
+
+@contract(PRJ + "_has_marker", props=["C09"], types=dict(path=PathT, marker_name=Str, is_dir=Bool, marker_path=PathT), returns=Bool)
+class HasMarker:
+    def value(path, marker_name, is_dir):
+        return fs_is_dir(path_div(path, marker_name)) if is_dir else fs_is_file(path_div(path, marker_name))
+
+
+@contract(PRJ + "_check_root_with_markers", props=["C09"], types=dict(path=PathT), returns=Bool)
+class CheckRootWithMarkers:
+    def value(path):
+        return marked(path)
+
+
+@contract(PRJ + "_find_root_manual", props=["C09"], types=dict(start_path=PathT, current=PathT, parent=PathT), returns=PathT)
+class FindRootManual:
+    def value(start_path):
+        # C09: a function of the RESOLVED start directory and of the markers on its ancestor chain only -- not of how the
+        # start path was spelled; the nearest marked directory wins, the start directory itself if none is marked
+        return first_marked([path_resolve(start_path)] + path_parents(path_resolve(start_path)), path_resolve(start_path))
+
+    def inv0(start_path, current, rest):
+        return current == path_resolve(start_path) and \
+            first_marked([current] + path_parents(current), current) == first_marked(rest, current)
+
+
+@contract(PRJ + "_try_find_with_criterion", props=["C09"], types=dict(criterion=CriterionT, start_path=PathT), returns=Opt(PathT),
+          assumed="pyprojroot.find_root(criterion, start): third-party upward marker search (None when it raises)")
+class TryFindWithCriterion:
+    def value(criterion, start_path):
+        return pyproj_find(criterion, start_path)
+
+
+@contract(PRJ + "_find_root_with_pyprojroot", props=["C09"], types=dict(current=PathT, root=Opt(PathT), criterion=CriterionT),
+          returns=PathT)
+class FindRootWithPyprojroot:
+    def value(current):
+        # marker PRIORITY, not proximity: the nearest .git/ anywhere above wins over a nearer .thailint.yaml / pyproject.toml
+        return pyproj_find(crit_dir(".git"), current) if pyproj_find(crit_dir(".git"), current) is not None else (
+            pyproj_find(crit_file(".thailint.yaml"), current) if pyproj_find(crit_file(".thailint.yaml"), current) is not None else (
+                pyproj_find(crit_file("pyproject.toml"), current) if pyproj_find(crit_file("pyproject.toml"), current) is not None
+                else current))
+
+
+def pyproj_root(current):
+    return pyproj_find(crit_dir(".git"), current) if pyproj_find(crit_dir(".git"), current) is not None else (
+        pyproj_find(crit_file(".thailint.yaml"), current) if pyproj_find(crit_file(".thailint.yaml"), current) is not None else (
+            pyproj_find(crit_file("pyproject.toml"), current) if pyproj_find(crit_file("pyproject.toml"), current) is not None
+            else current))
+
+
+@contract(PRJ + "get_project_root", props=["C09"], types=dict(start_path=Opt(PathT), current=PathT), returns=PathT)
+class GetProjectRoot:
+    def requires(start_path):
+        return start_path is not None   # (None means Path.cwd(): the working directory is an input of the run)
+
+    def value(start_path):
+        # C09: the detected root is a function of the RESOLVED start directory (and of the markers above it) -- relative
+        # and absolute spellings of the same directory give the same root
+        return pyproj_root(path_resolve(start_path))
